@@ -9,6 +9,7 @@ import pandas as pd
 from . import absdata as A
 from . import pipeline as P
 from .common import Report, audit, corpus_cases, rng_for, run_driver
+from .regen import regenerate
 
 PROP = "C20"
 MODULES = ["PanderaModel.Props.C20"]
@@ -230,7 +231,7 @@ def run_polars(rep, cases):
         D, o = c["frame"], c["opts"]
         n = D["nrows"]
         keys = [json.dumps([col["vals"][i] for col in D["cols"]]) for i in range(n)]
-        dcases.append({"n": n, "head": o["head"], "tail": o["tail"], "samplePos": None, "keys": keys})
+        dcases.append({"n": n, "head": o["head"], "tail": o["tail"], "samplePos": None, "keys": keys, "backend": "polars"})
     ans = run_driver("C20", dcases)
 
     def verdict(S, df, _fck=None, **kw):
@@ -288,6 +289,7 @@ def run_polars(rep, cases):
 
 def run(tier, replay=None):
     rep = Report(PROP, tier)
+    regenerate(("subsamplerules",))
     rep.audit = audit(PROP, MODULES)
     rep.audit["modules"] = MODULES
     if replay and json.loads(open(replay).read())["case"].get("entry") in ("Index", "SeriesSchema", "SeriesSchema-values", "Column"):
